@@ -161,7 +161,16 @@ def replay(pyhf, backend, precision, chunk, seed, hypo_every=1, float_probes=0):
         """the calculator protocol on the real class; returns observed values.  prev = (q, qA) of an earlier scan point the
         SAME calculator object served first (Rescan of MC_Asymptotics): the complete protocol runs at mu = 0.5 with those
         statistics, then the reported protocol at mu = 1.0 on the same object"""
-        calc = calcs.AsymptoticCalculator(data, model, test_stat=kind, calc_base_dist=base)
+        # configuration lane (seeded change C07d): the formulae are functions of (q, q_A, kind) alone -- the caller's parameter bounds,
+        # in particular a POI lower bound other than 0, must not select the branch.  Two calls in five get their own bounds.
+        lo = rng.choice([None, None, None, -1.0, -5.0])
+        if lo is None:
+            calc = calcs.AsymptoticCalculator(data, model, test_stat=kind, calc_base_dist=base)
+        else:
+            bnds = [list(b) for b in model.config.suggested_bounds()]
+            bnds[model.config.poi_index] = [lo, 10.0 + rng.choice([0.0, 5.0])]
+            calc = calcs.AsymptoticCalculator(data, model, par_bounds=bnds, test_stat=kind, calc_base_dist=base)
+            out["own_bounds"] = out.get("own_bounds", 0) + 1
         if prev is not None:
             stub0 = _Stub(pyhf, prev[0], prev[1])
             with _Patched(pyhf, stub0):
